@@ -8,7 +8,9 @@ EXPLANATION = ("Static rules over quinn-proto MIR: (a) capacity provenance in po
                "final pad-to-MTU keeps its capacity condition (loss probes stay <= 1200); (b) the MTU probe's capacity and padding both derive from "
                "MtuDiscovery::poll_transmit; one probe in flight; search bounds are clamped by the peer limit; (c) mandatory padding to 1200 for PATH_CHALLENGE / "
                "PATH_RESPONSE / client Initials; (d) writers of current_mtu: only on_acked raises it, with the acked probe's size; reset() re-applies the peer limit; "
-               "(e) datagram-frame max_size tied to current MTU and peer limit. Recovery behaviour after an MTU drop is NOT decided.")
+               "(e) datagram-frame max_size tied to current MTU and peer limit; (f) CONNECTION_CLOSE encoders: the reason budget subtracts the encoded size of "
+               "every field written before the reason; (d, cont.) the peer limit is recorded in MtuDiscovery itself, reset() clamps to it and PathData::new applies "
+               "the known limit to a discovery-disabled path too. Recovery behaviour after an MTU drop is NOT decided.")
 RULE = "rule instances = (rule, site) pairs over MIR stores / call arguments / branches; non-trivial = bound to a real site"
 MT = 'mtud::MtuDiscovery'
 
@@ -533,6 +535,107 @@ def _limit_lands_in_live_state(ctx, body, instance, what):
                   what + ': MtuDiscovery.state is written again at %s after the peer limit was recorded in it: the new search state forgets the peer max_udp_payload_size' % after)
 
 
+# --------------------------------------------------------------------------
+# the peer limit also binds a path without MTU discovery (repair 46f23f8)
+# --------------------------------------------------------------------------
+
+def _is_recorded_limit(v):
+    """v IS self.peer_max_udp_payload_size of the MtuDiscovery itself (receiver parameter), not the copy in the search state"""
+    return _is_field(v, 'peer_max_udp_payload_size') and v[1][0] == 'param' and v[1][1] == 1
+
+
+def _reset_store_clamped(ctx, rs, w, v):
+    """every value reset() stores to current_mtu IS min(.., self.peer_max_udp_payload_size) -- or every path from the store to
+    the return passes on_peer_max_udp_payload_size_received(self.peer_max_udp_payload_size), which takes the same min"""
+    F = ctx.facts
+    v = _peel_conv(v)
+    ok = _is_min(v) and any(_is_recorded_limit(_peel_conv(x)) for x in v[3])
+    if not ok and w.body is rs:
+        ks = [k.bb for k in rs.calls_to('MtuDiscovery::on_peer_max_udp_payload_size_received') if _is_recorded_limit(_peel_conv(arg_desc(F, k, 1)))]
+        starts = [w.bb] if w.bb not in ks else []
+        ok = bool(ks) and path_avoiding(rs, starts, rs.return_blocks(), ks) is None
+    ctx.check(ok, 'd', 'reset_clamps_to_recorded_peer_limit', rs, w.where(), 'current_mtu = min(.., self.peer_max_udp_payload_size)',
+              'reset() stores %s to current_mtu without clamping to the recorded peer max_udp_payload_size: after path_changed() a path without MTU discovery sends datagrams larger than the peer accepts' % D.render(v)[:100])
+
+
+def _peer_limit_recorded_outside_search_state(ctx):
+    """MtuDiscovery.peer_max_udp_payload_size (what reset() clamps by): stored on every path of
+    on_peer_max_udp_payload_size_received with exactly the announced limit, written nowhere else, constructed as `no limit`"""
+    F = ctx.facts
+    op = ctx.pfn('MtuDiscovery::on_peer_max_udp_payload_size_received')
+    no_limit = F.const_int('quinn_proto::MAX_UDP_PAYLOAD')
+    n = 0
+    for w in field_writes(F, MT, 'peer_max_udp_payload_size', crate='quinn_proto'):
+        r = F.root_of(w.body)
+        if r.id != op.id:
+            ctx.bad('d', 'peer_limit_recorded_for_reset/unexpected_writer', r, w.where(), 'MtuDiscovery.peer_max_udp_payload_size written (%s) in %s' % (w.kind, r.short))
+            continue
+        v = describer(F, w.body).rvalue(w.rv, w.bb, w.idx, 0) if w.kind == 'assign' and w.rv and w.rv[0] != 'sd' else ('?',)
+        always = w.body is op and all(op.dominates(w.bb, rb) for rb in op.return_blocks())
+        exact = v[0] == 'param' and v[1] == 2
+        n += 1 if (always and exact) else 0
+        ctx.check(always and exact, 'd', 'peer_limit_recorded_for_reset', op, w.where(), 'self.peer_max_udp_payload_size = <the announced limit>, on every path',
+                  'the limit recorded for reset() is %s' % ('not stored on every path' if exact else 'not the announced peer max_udp_payload_size: ' + D.render(v)[:100]))
+    ctx.floor('d', 'peer_limit_recorded_for_reset', n, 1)
+    cons = [c for c in constructions(F, MT, 'MtuDiscovery', crate='quinn_proto') if not c.body.trait.endswith('::Clone')]
+    for c in cons:
+        if 'peer_max_udp_payload_size' not in c.fields:
+            ctx.bad('d', 'peer_limit_starts_unlimited/anchor', c.body, c.where(), 'MtuDiscovery has no field peer_max_udp_payload_size: nothing remembers the peer limit for a path without MTU discovery')
+            continue
+        v = describer(F, c.body).operand(c.field_op('peer_max_udp_payload_size'), c.bb, c.idx)
+        ok = v[0] == 'const' and v[1] == 'int' and int(v[2]) >= no_limit
+        ctx.check(ok, 'd', 'peer_limit_starts_unlimited', c.body, c.where(), D.render(v)[:80], 'a new MtuDiscovery starts with a recorded peer limit other than `none yet` (MAX_UDP_PAYLOAD): ' + D.render(v)[:100])
+    ctx.floor('d', 'mtu_discovery_constructions', len(cons), 1)
+
+
+def _disabled_path_applies_known_limit(ctx):
+    """PathData::new: a MtuDiscovery::disabled(..) value gets the already-known peer limit (the Option<u16> parameter):
+    every path from the construction to the return of its body passes on_peer_max_udp_payload_size_received(<that value>,
+    <the limit's payload>), except over the None edge of a test of the limit itself.  When the construction sits in a closure
+    that does not do it, the same is required of the enclosing function from the call the closure is handed to."""
+    F = ctx.facts
+    inst = 'disabled_path_applies_known_peer_limit'
+    pn = ctx.pfn('PathData::new')
+    names = {nm for i, (ty, nm) in enumerate(pn.locals) if 1 <= i <= pn.argc and nm and ty.replace(' ', '').endswith('Option<u16>')}
+    no_limit = F.const_int('quinn_proto::MAX_UDP_PAYLOAD')
+
+    def is_lim(x):
+        return (x[0] == 'param' and x[2] in names) or (x[0] == 'upvar' and x[1] in names)
+
+    def limit_arg(x):
+        """x IS the payload of the limit (`if let Some(l)`, `.unwrap()` under a Some test) or `limit.unwrap_or(<no limit>)`"""
+        x = _payload(_peel_conv(x))
+        if _is_call(x, 'Option::unwrap_or') and len(x[3]) == 2 and x[3][1][0] == 'const' and x[3][1][1] == 'int' and int(x[3][1][2]) >= no_limit:
+            return is_lim(x[3][0])
+        return is_lim(x)
+
+    def covered(b, anchor):
+        """None when fine, else a block path from the anchor to a return on which the limit is known but not applied"""
+        ks = [k.bb for k in b.calls_to('MtuDiscovery::on_peer_max_udp_payload_size_received') if limit_arg(arg_desc(F, k, 1)) and is_site(arg_desc(F, k, 0), anchor)]
+        if anchor.t is None:
+            return None
+        cut = {(br.bb, none_t) for br, none_t, some_t in _none_edges(F, b, is_lim) if none_t != some_t}
+        reach = b.reachable_from(anchor.t, ks, cut) if anchor.t not in ks else set()
+        rets = [r for r in b.return_blocks() if r in reach]
+        if not rets:
+            return None
+        return path_avoiding(b, [anchor.t], rets, ks) or [anchor.t, rets[0]]
+
+    if not names:
+        ctx.bad('d', inst + '/anchor', pn, pn.where(), 'PathData::new has no Option<u16> parameter carrying the known peer max_udp_payload_size')
+        return
+    sites = [(b, c) for b in [pn] + list(F.closures_of(pn)) for c in b.calls_to('MtuDiscovery::disabled')]
+    for b, c in sites:
+        p = covered(b, c)
+        if p is not None and b is not pn:
+            outer = [k for k in pn.calls() if any(x[0] == 'agg' and x[1] == 'closure' and x[2] == b.canon for i in range(len(k.args)) for x in [arg_desc(F, k, i)])]
+            if outer and all(covered(pn, k) is None for k in outer):
+                p = None
+        ctx.check(p is None, 'd', inst, pn, c.where(), 'disabled(..) is followed by on_peer_max_udp_payload_size_received(known limit) unless the limit is None',
+                  'a path built without MTU discovery ignores the already-known peer max_udp_payload_size (%s): after a migration datagrams exceed what the peer accepts' % fmt_path(b, p or []))
+    ctx.floor('d', 'disabled_mtud_sites_in_new_path', len(sites), 1)
+
+
 def rule_d(ctx):
     F = ctx.facts
     allowed = {'MtuDiscovery::on_acked': 'probe acked', 'MtuDiscovery::black_hole_detected': 'min_mtu', 'MtuDiscovery::on_peer_max_udp_payload_size_received': 'min(old, peer)',
@@ -551,9 +654,14 @@ def rule_d(ctx):
         elif r.short == 'MtuDiscovery::on_peer_max_udp_payload_size_received':
             ok = v[0] == 'call' and v[1].endswith('::min') and D.has_field(v, 'current_mtu') and D.has_param(v, name='peer_max_udp_payload_size')
             ctx.check(ok, 'd', 'peer_limit_only_lowers_mtu', r, w.where(), D.render(v), 'peer limit handling no longer min(current, peer)')
+        elif r.short == 'MtuDiscovery::reset':
+            _reset_store_clamped(ctx, r, w, v)
         else:
             ctx.ok('d', 'current_mtu_writers', r, w.where(), allowed[r.short])
     ctx.floor('d', 'current_mtu_stores', len(st), 4)
+    ctx.floor('d', 'reset_current_mtu_stores', sum(1 for w, v in st if F.root_of(w.body).short == 'MtuDiscovery::reset'), 1)
+    _peer_limit_recorded_outside_search_state(ctx)
+    _disabled_path_applies_known_limit(ctx)
     opa = ctx.pfn('EnabledMtuDiscovery::on_probe_acked')
     rd = [y for _, x in ret_descs(F, opa) for y in flat(x)]
     ok = any(y[0] == 'agg' and y[2].endswith('Some') and D.has_field(y, 'last_probed_mtu') for y in rd)
@@ -647,9 +755,169 @@ def rule_e(ctx):
     ctx.check(ok, 'e', 'black_hole_drops_oversized_datagrams', dl, dl.where(), 'drop_oversized(max_size()) after black_hole_detected', 'queued datagrams larger than the fallen-back MTU are no longer dropped')
 
 
+# --------------------------------------------------------------------------
+# (f) close frames stay within the size they are given (repair 4a5e927)
+# --------------------------------------------------------------------------
+
+_FIXED_PUT = {'put_u8': 1, 'put_i8': 1, 'put_u16': 2, 'put_i16': 2, 'put_u16_le': 2, 'put_u32': 4, 'put_i32': 4, 'put_u32_le': 4, 'put_u64': 8, 'put_i64': 8, 'put_u64_le': 8}
+_VARINT_WRAP = ('VarInt::from_u64', 'VarInt::from_u32', 'VarInt::from_u64_unchecked', 'VarInt::into_inner') + _CONV
+
+
+def _meth(c):
+    return c.f.rsplit('::', 1)[-1]
+
+
+def _nosite(v):
+    """descriptor without call-site blocks: two evaluations of the same pure expression compare equal"""
+    if not isinstance(v, tuple):
+        return v
+    if v and v[0] == 'call':
+        return tuple(_nosite(x) for x in v[:4])
+    return tuple(_nosite(x) for x in v)
+
+
+def _varint_value(v):
+    """the integer a VarInt / varint write carries: VarInt::from_u64(x).unwrap(), x.into_inner(), try_from(x) are all x"""
+    while isinstance(v, tuple) and v[0] == 'call' and v[3] and (v[1] in _VARINT_WRAP or D._trait_form(v[1]) in _VARINT_WRAP):
+        v = v[3][0]
+    return v
+
+
+def _varint_len(n):
+    return 1 if n < 1 << 6 else 2 if n < 1 << 14 else 4 if n < 1 << 30 else 8
+
+
+def _const_value(F, v):
+    if not (isinstance(v, tuple) and v[0] == 'const'):
+        return None
+    if v[1] == 'int':
+        try:
+            return int(v[2])
+        except ValueError:
+            return None
+    cs = [c for p_, c in F.consts.items() if v[3] and (p_ == v[3] or path_matches(p_, v[3]))]
+    if len(cs) == 1 and cs[0].get('kind') == 'int':
+        return int(cs[0]['val'])
+    return None
+
+
+def _is_sink(body, v):
+    """v IS a `&mut <buffer>` parameter other than the receiver"""
+    return isinstance(v, tuple) and v[0] == 'param' and v[1] != 1 and str(body.locals[v[1]][0]).startswith('&mut ')
+
+
+def _codec_class(F, ty):
+    """how `BufMutExt::write::<ty>` encodes: ('varint',) = QUIC varint of the carried integer, ('fixed', n), or None (unknown)"""
+    if ty == 'varint::VarInt' or ty.endswith('::varint::VarInt'):
+        return ('varint',)
+    bs = [b for b in F.bodies.values() if b.crate == 'quinn_proto' and b.name == 'encode' and (b.trait or '').endswith('coding::Codec') and b.self_ty == ty]
+    if len(bs) != 1:
+        return None
+    b = bs[0]
+    ws = [c for c in b.calls() if c.bb in b.live_blocks() and c.args and _is_sink(b, arg_desc(F, c, 0))]
+    if len(ws) != 1 or len(ws[0].args) != 2:
+        return None
+    a = arg_desc(F, ws[0], 1)
+    if _meth(ws[0]) == 'write_var' and _is_field(a, '0') and a[1][0] == 'param' and a[1][1] == 1:
+        return ('varint',)
+    if _meth(ws[0]) in _FIXED_PUT and a[0] == 'param' and a[1] == 1:
+        return ('fixed', _FIXED_PUT[_meth(ws[0])])
+    return None
+
+
+def _close_reason_budget(ctx, b):
+    """The frame written by <Close>::encode(out, max_len) is `header fields ++ reason[..n]`.  n IS min(.., B) where B is
+    the max_len parameter minus terms that account for EVERY other write to `out`: a write of a varint is accounted for by
+    a term VarInt::size(<the same value>) (for a written min(a, ..) the size of `a` is an upper bound), anything left by
+    integer constants whose sum is at least the worst-case size of the writes left (constant value: its encoded size;
+    fixed-width: its width; unknown varint: 8)."""
+    F = ctx.facts
+    inst = 'close_reason_budget_covers_header'
+    for cb in F.closures_of(b):
+        if any(_meth(c) in ('write', 'write_var') or _meth(c).startswith('put_') for c in cb.calls()):
+            ctx.bad('f', inst + '/anchor', b, cb.where(), 'the frame is (also) written from a closure; the writes cannot be ordered against the budget')
+            return
+    sinks = [c for c in b.calls() if c.bb in b.live_blocks() and c.args and _is_sink(b, arg_desc(F, c, 0))]
+    reason = []
+    for c in sinks:
+        if _meth(c) == 'put_slice' and len(c.args) == 2:
+            a = arg_desc(F, c, 1)
+            if a[0] == 'call' and a[1].endswith('Index>::index') and len(a[3]) == 2 and a[3][0][0] == 'field' and a[3][0][1][0] == 'param' and a[3][0][1][1] == 1:
+                r = a[3][1]
+                if r[0] == 'agg' and r[2].endswith('Range::Range') and len(r[3]) == 2 and _const_value(F, r[3][0]) == 0:
+                    reason.append((c, r[3][1]))
+                elif r[0] == 'agg' and r[2].endswith('RangeTo::RangeTo') and len(r[3]) == 1:
+                    reason.append((c, r[3][0]))
+    if len(reason) != 1:
+        ctx.bad('f', inst + '/anchor', b, b.where(), 'expected exactly one `out.put_slice(&self.<reason>[..n])`, found %d' % len(reason))
+        return
+    rc, n = reason[0]
+    n = _peel_conv(n)
+    others = [c for c in sinks if c is not rc]
+    why = []
+    if any(c.bb in b.reachable_strict(c.bb) for c in sinks):
+        why.append('a write to the buffer sits in a loop')
+    writes = []        # (call, worst-case size, value or None)
+    for c in others:
+        m = _meth(c)
+        cls = None
+        if m == 'write_var' and len(c.args) == 2:
+            cls = ('varint',)
+        elif m == 'write' and len(c.args) == 2 and c.ga and len(c.ga) >= 2:
+            cls = _codec_class(F, c.ga[-1])
+        elif m in _FIXED_PUT:
+            cls = ('fixed', _FIXED_PUT[m])
+        if cls is None:
+            why.append('a write of unknown size at %s' % c.where())
+        elif cls[0] == 'fixed':
+            writes.append((c, cls[1], None))
+        else:
+            v = _varint_value(arg_desc(F, c, 1))
+            k = _const_value(F, v)
+            writes.append((c, 8 if k is None else _varint_len(k), None if k is not None else v))
+    verdicts = []
+    if not _is_min(n):
+        why.append('the reason length %s is not min(.., budget)' % D.render(n)[:80])
+    for B in (n[3] if _is_min(n) else ()):
+        pos, neg = _terms(_peel_conv(B))
+        if not (len(pos) == 1 and pos[0][0] == 'param' and pos[0][1] != 1 and not _is_sink(b, pos[0])):
+            verdicts.append('%s does not start from the max_len parameter alone' % D.render(B)[:60])
+            continue
+        sizes = [_nosite(_varint_value(t[3][0])) for t in neg if _is_call(t, 'VarInt::size') and len(t[3]) == 1]
+        allowance = sum(k for k in (_const_value(F, t) for t in neg) if k is not None)
+        left = []
+        for c, worst, v in writes:
+            cands = []
+            if v is not None:
+                cands = [_nosite(v)] + ([_nosite(_varint_value(x)) for x in v[3]] if _is_min(v) else [])
+            hit = [s_ for s_ in cands if s_ in sizes]
+            if hit:
+                sizes.remove(hit[0])
+            else:
+                left.append((c, worst))
+        need = sum(w_ for _, w_ in left)
+        if need <= allowance:
+            verdicts = None
+            break
+        verdicts.append('the budget subtracts constants summing to %d but the writes at %s, not matched by a VarInt::size(<same value>) term, can take %d bytes' % (
+            allowance, [c.where().rsplit('/', 1)[-1] for c, _ in left], need))
+    ok = not why and verdicts is None
+    ctx.check(ok, 'f', inst, b, rc.where(), 'reason[..min(len, max_len - sizes of the %d header writes)]' % len(others),
+              'the CONNECTION_CLOSE reason budget does not cover the header actually written, the frame can exceed max_len (and the datagram the MTU): ' + '; '.join(why + (verdicts or [])))
+    return len(others)
+
+
+def rule_f(ctx):
+    n = 0
+    for fn in ('frame::ConnectionClose::encode', 'frame::ApplicationClose::encode'):
+        n += _close_reason_budget(ctx, ctx.pfn(fn)) or 0
+    ctx.floor('f', 'close_header_writes', n, 7)
+
+
 def run(ctx):
     rule_a(ctx)
     rule_b(ctx)
     rule_c(ctx)
     rule_d(ctx)
     rule_e(ctx)
+    rule_f(ctx)
